@@ -38,6 +38,17 @@ def bank_strategy(max_tokens, disc):
     @st.composite
     def build(draw):
         pool = draw(st.lists(tree, min_size=1, max_size=3))
+        if draw(st.integers(0, 5)) == 0:
+            # a flat constituent with 11..13 children (more than ten variables in one clause), optionally with a gap
+            n = draw(st.integers(11, 13))
+            toks = [{"w": draw(st.sampled_from(WORDS)), "p": draw(st.sampled_from(["NN", "VB", "ART"])), "n": i + 1, "e": "--", "lem": "--", "m": "--"} for i in range(n + 1)]
+            inner = toks[:n]
+            outer = [toks[n]]
+            if disc > 0 and draw(st.booleans()):
+                k = draw(st.integers(1, n - 2))
+                toks[k]["n"], toks[n]["n"] = toks[n]["n"], toks[k]["n"]
+            flat = {"l": "CNP", "e": "--", "lem": "--", "m": "--", "c": inner}
+            pool.append({"sid": 1, "root": {"l": "VROOT", "e": "--", "lem": "--", "m": "--", "c": [flat] + outer}})
         picks = draw(st.lists(st.integers(0, len(pool) - 1), min_size=1, max_size=5))
         return [pool[i] for i in picks]
     return build()
